@@ -5,7 +5,7 @@
 // Fragment (anything else makes the translator fail):
 //   - kinds: string (Go.Str), bool, int (Nat: only 0, literals, `+`, `++`, map values and `len`; the
 //     one subtraction allowed is `len(xs)-1` inside a `range xs` body, where len(xs) >= 1),
-//     map[string]int (Go.SIMap, allocated), Params = []*Param (List Gencommon.P: the elements are
+//     (`strconv.FormatInt(int64(v), 10)` and `strconv.Itoa(v)` are Go.itoa), map[string]int (Go.SIMap, allocated), Params = []*Param (List Gencommon.P: the elements are
 //     distinct pointers, a write `p.Name = e` goes to the element the loop is at), *Param.
 //   - of a Param the code may read and write `Name` and ask `TypeImplements(p.ActualType,
 //     ErrorInterface | ContextInterface)`: the fields name / isErr / isCtx of the model's `P`.
@@ -207,6 +207,10 @@ func (t *pt) expr(e ast.Expr) (string, string) {
 				if a, k := t.expr(c.Args[0]); k == "int" {
 					return "(Go.itoa " + a + ")", "str"
 				}
+			}
+		case f == "strconv.Itoa" && len(x.Args) == 1:
+			if a, k := t.expr(x.Args[0]); k == "int" {
+				return "(Go.itoa " + a + ")", "str"
 			}
 		case f == "TypeImplements" && len(x.Args) == 2:
 			if sel, ok := x.Args[0].(*ast.SelectorExpr); ok && sel.Sel.Name == "ActualType" {
